@@ -1,7 +1,228 @@
 //! Language-specific document generators (languages whose surface syntax is not a plain token stream).
-use crate::lang::Lang;
+use crate::lang::{self, Lang};
 use crate::tape::Tape;
 
-pub fn custom_doc(_lang: &Lang, _t: &mut Tape) -> Option<Vec<u8>> {
-    None
+pub fn custom_doc(lang: &Lang, t: &mut Tape) -> Option<Vec<u8>> {
+    match lang.meta.get("custom").and_then(|v| v.as_str()) {
+        Some("indent") => Some(indent_doc(t)),
+        Some("heredoc") => Some(heredoc_doc(t)),
+        Some("tmpl") => Some(tmpl_doc(t)),
+        _ => None,
+    }
+}
+
+fn expr(t: &mut Tape, depth: u32, s: &mut String) {
+    let k = if depth > 3 { t.below(2) } else { t.weighted(&[35, 25, 20, 20]) };
+    match k {
+        0 => s.push_str(*t.pick(&["a", "b", "x", "foo", "y1", "é", "_t", "passed", "iff"])),
+        1 => s.push_str(*t.pick(&["0", "1", "42", "100"])),
+        2 => {
+            s.push_str(*t.pick(&["f", "g", "foo"]));
+            s.push('(');
+            let n = t.below(3);
+            for i in 0..n {
+                if i > 0 {
+                    s.push_str(", ");
+                }
+                expr(t, depth + 1, s);
+            }
+            s.push(')');
+        }
+        _ => {
+            expr(t, depth + 1, s);
+            s.push_str(*t.pick(&[" + ", " - ", " * ", " == ", "+", "*"]));
+            expr(t, depth + 1, s);
+        }
+    }
+}
+
+fn indent_block(t: &mut Tape, depth: u32, ind: &str, out: &mut String, budget: &mut i32) {
+    let n = 1 + t.below(4);
+    for _ in 0..n {
+        *budget -= 1;
+        let nl = if t.pct(12) { "\r\n" } else { "\n" };
+        if t.pct(8) && !out.is_empty() {
+            // blank line (possibly with stray spaces)
+            out.push_str(*t.pick(&["", "  ", "\t"]));
+            out.push_str(nl);
+        }
+        let kind = if depth >= 6 || *budget <= 0 { t.below(2) } else { t.weighted(&[40, 10, 18, 10, 12, 10]) };
+        out.push_str(ind);
+        match kind {
+            0 => {
+                expr(t, 0, out);
+                if t.pct(10) {
+                    out.push_str("  ");
+                }
+                out.push_str(nl);
+            }
+            1 => {
+                out.push_str("pass");
+                out.push_str(nl);
+            }
+            _ => {
+                let child = format!("{ind}{}", *t.pick(&["    ", "  ", " ", "        ", "\t"]));
+                match kind {
+                    2 | 5 => {
+                        out.push_str("if ");
+                        expr(t, 1, out);
+                    }
+                    3 => {
+                        out.push_str("while ");
+                        expr(t, 1, out);
+                    }
+                    _ => {
+                        out.push_str("def ");
+                        out.push_str(*t.pick(&["f", "g", "foo"]));
+                        out.push_str(*t.pick(&["()", "(a)", "(a, b)"]));
+                    }
+                }
+                out.push(':');
+                out.push_str(nl);
+                indent_block(t, depth + 1, &child, out, budget);
+                if kind == 5 {
+                    out.push_str(ind);
+                    out.push_str("else:");
+                    out.push_str(nl);
+                    indent_block(t, depth + 1, &child, out, budget);
+                }
+            }
+        }
+    }
+}
+
+pub fn indent_doc(t: &mut Tape) -> Vec<u8> {
+    let mut out = String::new();
+    let mut budget = match t.weighted(&[60, 30, 10]) {
+        0 => t.range(1, 8) as i32,
+        1 => t.range(8, 40) as i32,
+        _ => t.range(40, 400) as i32,
+    };
+    let mut guard = 0;
+    while budget > 0 && guard < 500 {
+        indent_block(t, 0, "", &mut out, &mut budget);
+        guard += 1;
+    }
+    if t.pct(15) {
+        // drop the final newline
+        while out.ends_with('\n') || out.ends_with('\r') {
+            out.pop();
+        }
+    }
+    out.into_bytes()
+}
+
+pub fn heredoc_doc(t: &mut Tape) -> Vec<u8> {
+    let mut out = String::new();
+    let lines = match t.weighted(&[60, 30, 10]) {
+        0 => t.range(1, 6),
+        1 => t.range(6, 30),
+        _ => t.range(30, 300),
+    };
+    let words = ["cat", "echo", "a", "b", "x1", "foo", "./run", "-v", "é", "EOF", "END"];
+    for _ in 0..lines {
+        let nl = if t.pct(10) { "\r\n" } else { "\n" };
+        match t.weighted(&[45, 10, 45]) {
+            0 => {
+                let n = 1 + t.below(4);
+                for i in 0..n {
+                    if i > 0 {
+                        out.push(' ');
+                    }
+                    if i > 0 && t.pct(15) {
+                        out.push_str(*t.pick(&["'s'", "''", "'a b'", "'<<EOF'"]));
+                    } else {
+                        out.push_str(*t.pick(&words));
+                    }
+                }
+                out.push_str(nl);
+            }
+            1 => out.push_str(nl),
+            _ => {
+                out.push_str(*t.pick(&["cat", "echo a", "x -v"]));
+                let d = *t.pick(&["EOF", "END", "X", "_", "A_VERY_LONG_HEREDOC_DELIMITER_NAME_0123456789", "EOF2"]);
+                out.push_str(*t.pick(&[" <<", " << ", "<<"]));
+                out.push_str(d);
+                out.push_str(nl);
+                let n = t.below(5);
+                for _ in 0..n {
+                    out.push_str(*t.pick(&["body line", "  indented", "", "EOFX", " EOF", "cat <<EOF", "é ü", "END of it", "X"]));
+                    if out.ends_with('X') && d == "X" {
+                        out.push('.');
+                    }
+                    out.push('\n');
+                }
+                out.push_str(d);
+                out.push_str(nl);
+            }
+        }
+    }
+    if t.pct(15) {
+        while out.ends_with('\n') || out.ends_with('\r') {
+            out.pop();
+        }
+    }
+    out.into_bytes()
+}
+
+pub fn tmpl_doc(t: &mut Tape) -> Vec<u8> {
+    let mini = lang::zoo("mini");
+    let arith = lang::zoo("arith");
+    let mut out: Vec<u8> = Vec::new();
+    let parts = match t.weighted(&[60, 30, 10]) {
+        0 => t.range(1, 5),
+        1 => t.range(5, 20),
+        _ => t.range(20, 120),
+    };
+    for _ in 0..parts {
+        match t.weighted(&[40, 35, 25]) {
+            0 => {
+                out.extend_from_slice(t.pick(&["hello ", "<p>", "</p>\n", "text\nmore text\n", "a < b ", "é ", "\n", "100% ", "<b>x</b>"]).as_bytes());
+            }
+            1 => {
+                out.extend_from_slice(b"<%");
+                if t.pct(85) {
+                    out.push(b' ');
+                    let nb = 1 + t_small(t);
+                    let toks = crate::gen::doc::sentence_tokens(mini, t, nb);
+                    let mut code = crate::gen::doc::render(mini, &toks, t);
+                    sanitize_code(&mut code);
+                    out.extend_from_slice(&code);
+                    out.push(b' ');
+                }
+                out.extend_from_slice(b"%>");
+            }
+            _ => {
+                out.extend_from_slice(b"<%=");
+                out.push(b' ');
+                let toks = crate::gen::doc::fragment_tokens(arith, t, 6);
+                let mut code = crate::gen::doc::render(arith, &toks, t);
+                sanitize_code(&mut code);
+                out.extend_from_slice(&code);
+                out.extend_from_slice(b" %>");
+            }
+        }
+    }
+    out
+}
+
+fn t_small(t: &mut Tape) -> u32 {
+    t.below(14) as u32
+}
+
+/// code regions must not contain the closing delimiter
+fn sanitize_code(code: &mut Vec<u8>) {
+    let mut i = 0;
+    while i + 1 < code.len() {
+        if code[i] == b'%' && code[i + 1] == b'>' {
+            code[i + 1] = b' ';
+        }
+        i += 1;
+    }
+    if code.last() == Some(&b'%') {
+        code.push(b' ');
+    }
+    if code.is_empty() {
+        code.push(b';');
+    }
 }
